@@ -23,6 +23,7 @@ import (
 	"github.com/buildbarn/bb-storage/pkg/digest"
 	"github.com/buildbarn/bb-storage/pkg/filesystem"
 	"github.com/buildbarn/bb-storage/pkg/filesystem/path"
+	"github.com/buildbarn/bb-storage/pkg/util"
 	"google.golang.org/grpc/codes"
 	"google.golang.org/grpc/status"
 )
@@ -36,14 +37,35 @@ const (
 	faultSpent  = 2
 )
 
+const (
+	corruptNone  = 0
+	corruptShort = 1
+	corruptBytes = 2
+)
+
 type fakeCAS struct {
 	mu    sync.Mutex        // the naive build directory downloads from several goroutines
 	blobs map[string][]byte // private copy, compared against the catalogue at the end
 	isDir map[string]bool   // shared, read-only
 	fault int
 	// faultKind restricts the armed failure: 0 next Get, 1 next Get of a
-	// Directory, 2 next Get of a file.
+	// Directory, 2 next Get of a file, 3 the caller's context is cancelled
+	// when the (faultSkip+1)-th Get of a file from now on is entered (that
+	// Get, like every later request on the cancelled context, fails with
+	// the context's error).
 	faultKind int
+	faultSkip int
+	// cancelCaller cancels the context of the call in progress (set by
+	// the driver around MergeDirectoryContents).
+	cancelCaller func()
+	// corrupt: how non-empty FILE blobs are served from now on (storage
+	// corruption): corruptShort = a prefix of the object, through a buffer
+	// that does not re-validate (what a local block device backed store
+	// hands out for ReadAt); corruptBytes = bytes of the right length but
+	// with different contents, through a CAS buffer, whose validation
+	// detects the mismatch. corruptServed counts such answers.
+	corrupt       int
+	corruptServed int
 	// Number of injected failures that hit a Directory / a file request.
 	firedDir, firedFile int
 	gets                int
@@ -66,7 +88,26 @@ func (f *fakeCAS) Get(ctx context.Context, d digest.Digest) buffer.Buffer {
 	f.mu.Lock()
 	defer f.mu.Unlock()
 	f.gets++
-	if f.fault == faultArmed && (f.faultKind == 0 || (f.faultKind == 1) == f.isDir[key]) {
+	if f.fault == faultArmed && f.faultKind == 3 && !f.isDir[key] {
+		if f.faultSkip > 0 {
+			f.faultSkip--
+		} else {
+			f.fault = faultSpent
+			if f.cancelCaller != nil {
+				f.cancelCaller()
+			}
+		}
+	}
+	if err := util.StatusFromContext(ctx); err != nil {
+		// The caller went away: the request fails.
+		if f.isDir[key] {
+			f.firedDir++
+		} else {
+			f.firedFile++
+		}
+		return buffer.NewBufferFromError(err)
+	}
+	if f.fault == faultArmed && f.faultKind != 3 && (f.faultKind == 0 || (f.faultKind == 1) == f.isDir[key]) {
 		f.fault = faultSpent
 		if f.isDir[key] {
 			f.firedDir++
@@ -78,6 +119,17 @@ func (f *fakeCAS) Get(ctx context.Context, d digest.Digest) buffer.Buffer {
 	data, ok := f.blobs[key]
 	if !ok {
 		return buffer.NewBufferFromError(status.Errorf(codes.NotFound, "blob %s not found", d))
+	}
+	if f.corrupt != corruptNone && !f.isDir[key] && len(data) > 0 {
+		f.corruptServed++
+		if f.corrupt == corruptShort {
+			return buffer.NewValidatedBufferFromByteSlice(data[:len(data)/2])
+		}
+		other := make([]byte, len(data))
+		for i, c := range data {
+			other[i] = c ^ 0x20
+		}
+		return buffer.NewCASBufferFromByteSlice(d, other, buffer.UserProvided)
 	}
 	return buffer.NewValidatedBufferFromByteSlice(data)
 }
